@@ -303,14 +303,25 @@ class Ctx:
                 raise SolverUnknown("concretize")
             v = m.eval(term, model_completion=True)
             if not z3.is_int_value(v):
-                # the evaluator leaves e.g. x/0 of completed-away variables unevaluated: ask for the value explicitly
+                # the evaluator leaves ToInt of an algebraic (irrational) model value, or x/0 of completed-away variables,
+                # unevaluated.  Only a candidate value is needed here (branch() below decides its feasibility with the solver):
+                # evaluate under the model with algebraic numbers replaced by close rationals
+                subs = []
+                for d in m.decls():
+                    if d.arity() == 0:
+                        val = m[d]
+                        if z3.is_algebraic_value(val):
+                            val = val.approx(30)
+                        subs.append((d(), val))
+                v = z3.simplify(z3.substitute(term, *subs)) if subs else v
+            if not z3.is_int_value(v):
                 kv = z3.Int("__concretise")
                 r, m = fresh_check(list(self.pc) + [kv == term], self.timeout_ms, want_model=True, stats=self.stats)
                 if r == "unknown":
                     raise SolverUnknown("concretize")
                 v = m.eval(kv, model_completion=True) if r == "sat" else None
                 if v is None or not z3.is_int_value(v):
-                    raise Unsupported(f"cannot concretise {term}")
+                    raise Unsupported(f"cannot concretise {term} [second query: {r}, value {v}]")
             v = v.as_long()
             if self.branch(term == v):
                 return v
